@@ -30,11 +30,11 @@ type Eff struct {
 	Must   bool    // present on every committed path of the summarised function
 	Commit bool    // present on at least one committed path (false: only on reverting paths)
 	InLoop bool
-	Pos    token.Pos // primitive site
-	Chain  []string  // call chain from the summarised function down to the primitive
-	Fn     *Func     // function that contains the primitive site
-	Event  *Event    // the direct event in the summarised function (call or primitive)
-	Via    *Eff      // the callee effect this one was instantiated from (nil if direct)
+	Pos    token.Pos   // primitive site
+	Chain  []string    // call chain from the summarised function down to the primitive
+	Fn     *Func       // function that contains the primitive site
+	Event  *Event      // the direct event in the summarised function (call or primitive)
+	Via    *Eff        // the callee effect this one was instantiated from (nil if direct)
 	Sites  []token.Pos // call-site positions from the summarised function down to the primitive
 }
 
@@ -174,7 +174,7 @@ func (p *Prog) SummaryOf(f *Func) *Summary {
 	}
 	accs := map[string]*acc{}
 	var order []string
-	siteOK := map[string]int{}     // site -> number of committed paths containing it
+	siteOK := map[string]int{}      // site -> number of committed paths containing it
 	siteMustIn := map[string]bool{} // site -> callee-level must flag
 	nOK := 0
 	for _, pa := range paths {
